@@ -65,7 +65,7 @@ def equivalent(utype, a, b):
 
 ACCESSORS = ["ham_new", "ham_assign", "faxis", "mol_new", "mol_set_energy", "mol_width", "mode_new", "mode_set_energy",
              "agg_coupling", "agg_coupling_matrix", "cf_reorg", "sd_reorg", "length", "ham_rwa", "mol_adiabatic", "submode", "ham_inplace",
-             "mol_ham", "mol_vib_ham", "ham_diag", "ham_undiag", "dfun_spline", "mol_diabatic"]
+             "mol_ham", "mol_vib_ham", "ham_diag", "ham_undiag", "dfun_spline", "mol_diabatic", "abs_interp", "cd_interp"]
 LIBCALLS = ["agg_build", "agg_build_env", "agg_build_raises", "agg_rebuild", "get_Hamiltonian", "relaxation_tensor", "rate_matrix",
             "set_rwa", "time_to_frequency_axis", "frequency_to_time_axis", "thermal_state", "molecule_hamiltonian",
             "cf_add", "sd_from_cf", "ft_cf", "abs_calculate", "propagate", "diagonalize", "convert",
@@ -539,7 +539,7 @@ class Runner:
             self.ctx.ev(i, "set", name, lu)
             self.ctx.cov("set", name, lu)
             return
-        if name in ("faxis", "dfun_spline") and u == "nm":
+        if name in ("faxis", "dfun_spline", "abs_interp", "cd_interp") and u == "nm":
             self.ctx.ev(i, "set", name, "noop-nm")
             return
         if name == "cf_reorg" and self.eu_depth() == 0:
@@ -608,6 +608,15 @@ class Runner:
                 # that were active when the interpolation was first asked for (that happens right below, in do_get)
                 fa = qr.FrequencyAxis(v, 24, v / 40.0)
                 obj = qr.DFunction(fa, numpy.cos(numpy.arange(24) / 4.0))
+                store = e
+            elif name in ("abs_interp", "cd_interp"):
+                # a measured spectrum given on its own (non-equidistant) frequency points in the active units
+                from quantarhei.spectroscopy.absbase import AbsSpectrumBase
+                from quantarhei.spectroscopy.circular_dichroism import CircDichSpectrumBase
+                xs = e * (1.0 + 0.02 * numpy.arange(30) + 0.0003 * numpy.arange(30) ** 2)
+                ys = numpy.exp(-((xs - 1.3 * e) / (0.1 * e)) ** 2)
+                obj = AbsSpectrumBase() if name == "abs_interp" else CircDichSpectrumBase()
+                obj.set_by_interpolation(from_internal(u, xs), ys, xaxis="frequency")
                 store = e
             elif name == "mol_diabatic":
                 # one descriptor list of the caller used for two couplings (the usual way of writing it)
@@ -748,6 +757,17 @@ class Runner:
             elif name in ("mol_new", "mol_set_energy"):
                 got = obj.get_energy(1)
                 exp = float(from_internal(u, e))
+            elif name in ("abs_interp", "cd_interp"):
+                xs = e * (1.0 + 0.02 * numpy.arange(30) + 0.0003 * numpy.arange(30) ** 2)
+                if u == "nm":
+                    got = exp = numpy.zeros(0)
+                else:
+                    got = numpy.array([obj.axis.min, obj.axis.data[int(numpy.argmax(obj.data))]])
+                    step = (xs[-1] - xs[0]) / 30.0
+                    grid = xs[0] + step * numpy.arange(30)
+                    import scipy.interpolate
+                    yn = scipy.interpolate.splev(grid, scipy.interpolate.splrep(xs, numpy.exp(-((xs - 1.3 * e) / (0.1 * e)) ** 2), s=0))
+                    exp = from_internal(u, numpy.array([xs[0], grid[int(numpy.argmax(yn))]]))
             elif name == "mol_diabatic":
                 got = numpy.array([obj.get_diabatic_coupling((0, 1))[0][0], obj.get_diabatic_coupling((1, 2))[0][0]])
                 exp = numpy.array([float(from_internal(u, e))] * 2)
